@@ -141,10 +141,10 @@ stand_in(("C14", "C02"), "join", "base.join(ref) == RFC 3986 5.2.2 (non-strict) 
          "yarl._url:URL.join",
          "bases and references built from scheme in {http, '', other}, authority in {none, h}, paths of <= 3 segments "
          "over {a, b.c, '.', '..', '', %2e, x%2Fy}, query/fragment in {absent, present}", primary=False)
-stand_in(("C13", "C11"), "path_algebra", "raw_parts / name / suffix / '/' / joinpath / with_name / with_suffix / parent identities",
+stand_in(("C13", "C11", "C01"), "path_algebra", "raw_parts / name / suffix / '/' / joinpath / with_name / with_suffix / parent identities",
          "yarl._url:URL._make_child",
          "bases over {absolute, rooted, rootless, empty} x paths of <= 3 (quick) / 4 (thorough) segments over {a, b.c, '', %2F, e-acute} x "
-         "segment texts over the same kinds plus dot segments and multi-segment texts")
+         "segment texts over the same kinds plus digits (ASCII and non-ASCII), dot segments and multi-segment texts")
 stand_in(("C06", "C05"), "decode", "decoded accessors == reference UTF-8 percent-decoding; supplied decoded values read back",
          "yarl._quoting_py:_Unquoter.__call__",
          "all strings of length <= 5 (quick) / 6 (thorough) over {%, 4, 1, C, 3, A, 9, +, a, /, e-acute} per component, "
@@ -152,15 +152,15 @@ stand_in(("C06", "C05"), "decode", "decoded accessors == reference UTF-8 percent
 stand_in("C18", "human_repr", "URL(u.human_repr()) == u and printable text is shown decoded",
          "yarl._url:URL.human_repr",
          "URLs built from decoded components over texts of <= 2 characters from the reserved delimiters, '%', space, "
-         "a control character, non-ASCII BMP and non-BMP characters, per component; hosts in {IDN, IPv4, IPv6}")
+         "a control character, non-ASCII BMP and non-BMP characters, per component; hosts in {IDN, IPv4, IPv6}; 6 whole queries with repeated keys")
 stand_in(("C03", "C15", "C09"), "fixed_point", "URL(str(u)) has the same string form and the same components as u",
          "yarl._url:encode_url",
          "URL strings composed of scheme x userinfo x host x port x path x query x fragment alternatives (see "
          "contracts/bounded_worker.py:fixed_point_cases) and the results of one modifier applied to each")
-stand_in(("C12", "C02"), "query_algebra", "with_query / extend_query / update_query / without_query_params == multi-dict algebra on pairs",
+stand_in(("C12", "C02", "C01"), "query_algebra", "with_query / extend_query / update_query / without_query_params == multi-dict algebra on pairs",
          "yarl._url:URL.update_query",
          "6 existing queries (duplicates, blanks, reserved characters; thorough: +40 single-pair queries) x 10 keys x 9 values x "
-         "{dict, pairs, MultiDict, dict of list, int, float, kwargs, str} + None and rejected values", primary=False)
+         "{dict, pairs, MultiDict, dict of list, int, float, float with exponent, str subclass, kwargs, str} + None and rejected values", primary=False)
 stand_in(("C19", "C03", "C09", "C17"), "build", "URL.build results are usable objects and fixed points; only ValueError/TypeError",
          "yarl._url:URL.build",
          "scheme in {'', http, x} x 12 authority / host alternatives (incl. host-less ones) x 5 paths", primary=False)
@@ -185,6 +185,14 @@ stand_in(("C11", "C17"), "modifiers", "with_* / origin / relative change only th
          "yarl._url:URL.with_host",
          "3 schemes x 4 userinfos x 5 hosts x 5 ports x 4 paths x 4 query/fragment endings (4800 URLs) x 21 modifier calls", primary=False)
 NONTRIVIAL_RULES["modifiers"] = "every URL of the corpus once per back end, each with 21 modifier calls; non-trivial when it has userinfo or an explicit port"
+
+stand_in(("C10", "C08"), "coherence", "==, hash and the ordering operators are coherent across construction routes; memo entries == lazy values",
+         "yarl._url:URL.__eq__",
+         "936 URL texts (4 schemes x 7 authorities incl. default ports and upper case x 6 paths incl. ''/'/' x 3 queries x 2 fragments) "
+         "x 8 construction routes (parse, encoded=True, pickle, build, build encoded, three identity modifiers), each compared with "
+         "every operand of its scheme and every 5th of the rest; 18 modifiers on a cold and on a fully observed source", primary=False)
+NONTRIVIAL_RULES["coherence"] = ("every URL text once per back end (all its routes, modifiers and comparisons); non-trivial when "
+                                 "the routes yield more than one distinct value")
 
 
 def replay_bounded(name, inputs, tier="quick"):
